@@ -93,11 +93,28 @@ fn gen_cf(reg: Reg, rng: &mut Prng) -> (Cf, &'static str) {
         5 => (Cf::Type0([0; 5]), "t0-zero"),
         6 => (Cf::Type1(rng.arr()), "t1-random"),
         7 => {
-            let m = match rng.below(3) {
+            let m = match rng.below(6) {
                 0 => [0u8; 9],
                 1 => {
                     let mut m = [0u8; 9];
                     m[rng.below(9) as usize] = 1 << rng.below(8);
+                    m
+                }
+                // one sub-band (what network servers really send), every sub-band in turn
+                2 | 3 => {
+                    let sb = rng.below(8) as usize;
+                    let mut m = [0u8; 9];
+                    m[sb] = 0xFF;
+                    m[8] = 1 << sb;
+                    m
+                }
+                // exactly two 125 kHz channels, both in one bank
+                4 => {
+                    let bank = rng.below(8) as usize;
+                    let a = rng.below(8) as u8;
+                    let b = (a + 1 + rng.below(7) as u8) % 8;
+                    let mut m = [0u8; 9];
+                    m[bank] = (1 << a) | (1 << b);
                     m
                 }
                 _ => [0xFF; 9],
